@@ -250,10 +250,6 @@ def render(toks, rng, p_space=0.5):
             # a name glued in front of a quote would read as a string prefix
             if k2 == "s" and k == "w" and t[-1:] in "rbufRBUF":
                 need = True
-            # recorded finding: `!` glued to a preceding keyword/name (`a and!b`) is rewritten to
-            # `a andnot b` and rejected at instantiation; that input class is not generated
-            if t2 == "!" and k == "w" and t != "v":
-                need = True
             if need or (rng is not None and rng.random() < p_space):
                 r = rng.random() if rng is not None else 0.0
                 ws = " " if r < 0.8 else ("  " if r < 0.93 else "\t")
@@ -325,14 +321,15 @@ def names_of(node):
 
 
 def unique_key(node):
-    """the library's de-duplication key of an expression entry (spec_parser `unique_key`, with
-    provider ids dropped): entries of one transition whose keys collide are a recorded finding and
-    are not generated"""
+    """identity of an expression entry modulo blanks, operator spelling and redundant parentheses (the
+    library's de-duplication key `unique_key` with provider ids dropped). Recorded finding K1/D20: the
+    same entry used twice in one transition's cond/unless lists is silently de-duplicated (or, when the
+    texts differ only in blanks, rejected); such lists are not generated."""
     if isinstance(node, ast.BoolOp):
         op = "and" if isinstance(node.op, ast.And) else "or"
         acc = unique_key(node.values[0])
         for v in node.values[1:]:
-            acc = f"{acc} {op} {unique_key(v)}"
+            acc = f"({acc} {op} {unique_key(v)})"
         return acc
     if isinstance(node, ast.UnaryOp):
         return f"not({unique_key(node.operand)})"
@@ -340,15 +337,15 @@ def unique_key(node):
         keys, left = [], unique_key(node.left)
         for op, c in zip(node.ops, node.comparators):
             r = unique_key(c)
-            keys.append(f"{left} {CMP_TEXT[AST_CMP[type(op)]]} {r}")
+            keys.append(f"({left} {CMP_TEXT[AST_CMP[type(op)]]} {r})")
             left = r
         acc = keys[0]
         for k in keys[1:]:
-            acc = f"{acc} and {k}"
+            acc = f"({acc} and {k})"
         return acc
     if isinstance(node, ast.Name):
         return node.id + "@"
-    return str(node.value)
+    return repr(node.value)
 
 
 # ----------------------------------------------------------------------------- scenarios
